@@ -10,7 +10,7 @@ import math
 from fractions import Fraction
 import z3
 from . import core
-from .core import EngineLimit, mk_bool, SBool, s_and, s_or, s_not
+from .core import modelled, EngineLimit, mk_bool, SBool, s_and, s_or, s_not
 
 
 def _it(v):
@@ -374,7 +374,7 @@ class SFloat:
         if isinstance(o.num, LInt):
             raise EngineLimit("division by symbolic float")
         if o.num == 0:
-            raise ZeroDivisionError("float division by zero")
+            raise modelled(ZeroDivisionError("float division by zero"))
         if isinstance(self.num, int):
             return self._lift(self.concrete() / o.concrete())
         if o.den == 1 and o.num & (o.num - 1) == 0:          # power of two: exact
